@@ -137,7 +137,68 @@ SIM_SCENARIO(scen_c15, "c15", "C15", 6000000, 30000) {
         }
         break;
     }
-    case 6: {   // limiter_node: forwarded - decremented <= threshold at every step, decrements racing puts, nothing lost
+    case 6: if (sim::draw(3, "batch_decrement") == 0) {
+        // limiter_node<int,int>: integral decrement messages that acknowledge several forwarded messages at once, sent by
+        // the successor's body (re-entrantly, while the put is still in flight if the body is lightweight) and by an
+        // external thread, racing the puts.  received - acknowledged <= threshold at every receive (acknowledged is
+        // raised before the decrement is sent, so the measure never exceeds the limiter's own forwarded - decremented);
+        // at the end, everything acknowledged, exactly `threshold` further puts are accepted.
+        int threshold = (int)sim::draw_range(2, 4, "threshold");
+        // (a lightweight body runs inside the limiter's try_put, under the lock of the limiter's successor cache: a
+        //  decrement sent from there re-enters the limiter on the same thread and spins on that lock for ever when the
+        //  limiter has a cached predecessor; such a feedback from inside a lightweight body is not a legal program here)
+        bool lw = sim::draw_bool("lightweight"), body_acks = sim::draw_bool("body_acks") && !lw;
+        int ack_gap = (int)sim::draw(20, "ack_gap");
+        int batch = (int)sim::draw_range(2, threshold, "batch");      // an acknowledgement covers at least this many messages (the main thread flushes the rest at quiescence)
+        limiter_node<int, int> lim(g, (size_t)threshold);
+        queue_node<int> q(g);
+        int received = 0, acked = 0; bool tail_phase = false; int tail_received = 0; sim::event* notify_got = nullptr;
+        auto ack_all = [&] { int k = received - acked; if (k > 0) { acked += k; sim::note("ack %d (acked=%d received=%d)", k, acked, received); lim.decrementer().try_put(k); sim::note("ack %d done", k); } };
+        auto body = [&](int m) noexcept -> continue_msg {      // noexcept: otherwise oneTBB ignores the lightweight policy
+            if (tail_phase) { ++tail_received; return continue_msg(); }
+            ++received;
+            sim::note("received m=%d (received=%d acked=%d)", m, received, acked);
+            if (notify_got) notify_got->signal();
+            SIM_CHECK(received - acked <= threshold, "oracle:limiter", "limiter_node<int,int> forwarded message %d while %d forwarded messages are not yet acknowledged (threshold %d)", m, received - acked - 1, threshold);
+            rec.order.push_back(m);
+            for (int i = 0; i < rec.points; ++i) sim::upoint();
+            if (body_acks && received - acked >= batch) ack_all();
+            return continue_msg(); };
+        std::unique_ptr<function_node<int, continue_msg, queueing>> w1; std::unique_ptr<function_node<int, continue_msg, queueing_lightweight>> w2;
+        make_edge(q, lim);
+        if (lw) { w2.reset(new function_node<int, continue_msg, queueing_lightweight>(g, unlimited, body)); make_edge(lim, *w2); }
+        else { w1.reset(new function_node<int, continue_msg, queueing>(g, unlimited, body)); make_edge(lim, *w1); }
+        auto msgs = split_msgs(n, threads, false);
+        std::vector<std::function<void()>> fns;
+        for (auto& v : msgs) fns.push_back([&q, &v] { for (int m : v) { sim::upoint(); q.try_put(m); } });
+        // the external acknowledger sleeps until a message arrives (no polling: the end of the run is judged at
+        // quiescence, without any step or round limit)
+        bool stop = false; sim::event got;
+        int acker = sim::spawn([&] { for (;;) { got.wait(); got.flag = false; if (stop) break; for (int i = 0; i < ack_gap; ++i) sim::upoint(); if (received - acked >= batch) ack_all(); } }, "acker");
+        notify_got = &got;
+        hx::run_fibers(fns);
+        for (;;) {
+            g.wait_for_all(); ack_all();
+            if (received >= n) break;
+            int before = received;
+            sim::wait_quiescent();          // every other thread is asleep or done: nothing is in flight any more
+            g.wait_for_all(); ack_all(); g.wait_for_all();
+            if (received == before && acked == received)
+                sim::fail("oracle:message-lost", "limiter_node<int,int> path delivered %d of %d messages; every delivered message is acknowledged, every thread is idle and the rest stays in the queue_node", received, n);
+        }
+        stop = true; got.signal(); sim::join(acker); notify_got = nullptr;
+        g.wait_for_all(); ack_all(); g.wait_for_all();
+        SIM_CHECK(acked == received, "tool:harness", "acknowledgement bookkeeping");
+        SIM_CHECK(received == n, "oracle:message-lost", "limiter_node<int,int> path delivered %d of %d messages", received, n);
+        std::set<int> u(rec.order.begin(), rec.order.end()); SIM_CHECK((int)u.size() == n, "oracle:message-twice", "limiter path duplicated a message");
+        tail_phase = true;
+        int accepted = 0;
+        for (int i = 0; i < threshold + 2; ++i) { if (lim.try_put(1000 + i)) ++accepted; g.wait_for_all(); }
+        sim::note("tail: accepted=%d tail_received=%d threshold=%d", accepted, tail_received, threshold);
+        SIM_CHECK(accepted == threshold && tail_received == threshold, "oracle:limiter", "after every forwarded message was acknowledged the limiter accepted %d (forwarded %d) further messages, its threshold is %d", accepted, tail_received, threshold);
+        sim::probe("limiter:batch-decrement");
+        break;
+    } else {   // limiter_node: forwarded - decremented <= threshold at every step, decrements racing puts, nothing lost
         int threshold = (int)sim::draw_range(1, 3, "threshold");
         limiter_node<int> lim(g, (size_t)threshold);
         queue_node<int> q(g);
